@@ -18,9 +18,16 @@
      second key list: R0 = keys of the ungrouped input and of the lazily added empty rules
      same: the finished rules_dict has as many entries as the dictionary _group_equiv_in_path left, i.e. IS
              that dictionary (Spec/GroupingProdObj.v ext_same_length); with wf, shifts_ok and status 0 the two
-             key lists are then an instance of the productivity theorem (object_keys_pump_iff) *)
+             key lists are then an instance of the productivity theorem (object_keys_pump_iff)
+     added later still (fields 9..11; the first nine are unchanged), all computed by the PROVED table-method
+     model (Spec/GroupingPumps.v verdicts = Forest/Model.v run with the fuel proved sufficient, then is_pumping;
+     meaning: Spec/GroupingPumpsProofs.v pumpsb_spec = C03_total_sound_complete):
+     9  ( root_pumps_R1 root_pumps_R0 )   does the root pump w.r.t. the first / the second key list
+     10 ( (class pumps) ... )              for every key of the first list (R1), in order: does its class pump w.r.t. R1
+     11 ( (class pumps) ... )              the same for the second list (R0)
+     (status other than 0: three empty lists) *)
 From Coq Require Import ZArith List Bool.
-From CSS Require Import Base.Sx Forest.Spec Spec.Grouping Spec.GroupingWf Spec.GroupingProdKeys.
+From CSS Require Import Base.Sx Forest.Spec Spec.Grouping Spec.GroupingWf Spec.GroupingProdKeys Spec.GroupingPumps.
 Import ListNotations.
 Open Scope Z_scope.
 
@@ -53,9 +60,11 @@ Definition xerr_code (e : xerr) : Z :=
 Definition enc_fkey (k : fkey) : sx :=
   L [of_nat (parent k); L (map (fun p => L [of_nat (fst p); I (snd p)]) (Forest.Spec.kids k))].
 
+Definition enc_pb (pb : nat * bool) : sx := L [of_nat (fst pb); of_bool (snd pb)].
+
 Definition run_spec (a : sx) : sx :=
   match sx_list a with
-  | [] => L [I (-1); L []; L []; L []; I 0; I 0; L []; L []; I 0]
+  | [] => L [I (-1); L []; L []; L []; I 0; I 0; L []; L []; I 0; L []; L []; L []]
   | _ =>
       let root := sx_nat (sx_nth a 0) in
       let ge := sx_bool (sx_nth a 1) in
@@ -66,11 +75,15 @@ Definition run_spec (a : sx) : sx :=
       let wf := of_bool (wf_inputb is_empty root d0) in
       let sok := of_bool (shifts_okb d0) in
       match spec_init is_empty root rules ge with
-      | XOk s => L [I 0; L (map enc_entry (sp_rules s)); of_nats (sp_labels s);
-                    L (map enc_entry (ungroup (sp_rules s))); wf; sok;
-                    L (map enc_fkey (R1 (sp_rules s))); L (map enc_fkey (R0 d0 (sp_rules s)));
-                    of_bool (same_dictb is_empty root rules ge (sp_rules s))]
-      | XErr e => L [I (xerr_code e); L []; L []; L []; wf; sok; L []; L []; I 0]
-      | XFuel => L [I 9; L []; L []; L []; wf; sok; L []; L []; I 0]
+      | XOk s =>
+          let v1 := verdicts (R1 (sp_rules s)) root in
+          let v0 := verdicts (R0 d0 (sp_rules s)) root in
+          L [I 0; L (map enc_entry (sp_rules s)); of_nats (sp_labels s);
+             L (map enc_entry (ungroup (sp_rules s))); wf; sok;
+             L (map enc_fkey (R1 (sp_rules s))); L (map enc_fkey (R0 d0 (sp_rules s)));
+             of_bool (same_dictb is_empty root rules ge (sp_rules s));
+             L [of_bool (fst v1); of_bool (fst v0)]; L (map enc_pb (snd v1)); L (map enc_pb (snd v0))]
+      | XErr e => L [I (xerr_code e); L []; L []; L []; wf; sok; L []; L []; I 0; L []; L []; L []]
+      | XFuel => L [I 9; L []; L []; L []; wf; sok; L []; L []; I 0; L []; L []; L []]
       end
   end.
